@@ -29,17 +29,12 @@ Definition slice_push (s : slice_st) (b : byte) : res slice_st :=
        | None => Fault                                     (* cursor.write(b) outside the buffer *)
        | Some buf' => Ok {| sl_buf := buf'; sl_start := sl_start s; sl_cursor := S (sl_cursor s); sl_end := sl_end s |}
        end.
-Fixpoint write_run (buf : list byte) (at_ : nat) (bs : list byte) : option (list byte) :=
-  match bs with
-  | [] => Some buf
-  | b :: r => match write_at buf at_ b with Some buf' => write_run buf' (S at_) r | None => None end
-  end.
 Definition slice_extend (s : slice_st) (bs : list byte) : res slice_st :=
   if Nat.ltb (sl_end s) (sl_cursor s) then Fault           (* end - cursor would wrap *)
   else
     let remain := (sl_end s - sl_cursor s)%nat in
     if Nat.ltb remain (length bs) then Err SerializeBufferFull
-    else match write_run (sl_buf s) (sl_cursor s) bs with  (* copy_nonoverlapping *)
+    else match splice (sl_buf s) (sl_cursor s) bs with    (* copy_nonoverlapping *)
          | None => Fault
          | Some buf' => Ok {| sl_buf := buf'; sl_start := sl_start s;
                               sl_cursor := (sl_cursor s + length bs)%nat; sl_end := sl_end s |}
